@@ -219,6 +219,20 @@ def run(chk, repo):
            "timer, whatever the state", not bad, r, "; ".join(bad[:3]) or
            "unconditionally: the initial reset (no error pending) is what "
            "starts the timer")
+    # the configuration stays where a subclass or an assignment can change
+    # it: constructing a valve stores neither setting on the instance
+    try:
+        fresh = Evaluator(repo, vc.module, vc).construct(vc, [], {})
+        shadow = [a_ for a_ in ("safeState", "movingTime")
+                  if a_ in fresh.fields]
+    except (Unknown, Raised) as e:
+        raise AnalysisError(f"{V}: cannot be constructed abstractly: {e}")
+    chk.ob("R27.3", V, "a new valve takes safeState and movingTime from its "
+           "class", not shadow, vc.methods.get("__init__", vc.node),
+           f"the constructor stores {shadow} on the instance: a subclass "
+           f"that sets `safeState = True` is driven to the wrong side when "
+           f"it times out" if shadow else "no instance attribute shadows "
+           "the class attributes")
     chk.ob("R27.4", V, "lastGood has no class-level default", "lastGood"
            not in vc.attrs, vc.attr_stmts.get("lastGood", vc.node),
            "a default timestamp hides a missing reset(): the valve would "
